@@ -120,6 +120,30 @@ Proof.
     rewrite V, nonce_add_length, Hn, pow256_16, IH.
     rewrite N.add_mod_idemp_l by discriminate. f_equal. lia.
 Qed.
+
+(* no nonce repeats within 2^128 consecutive packets: the successors N+i and N+j of one starting nonce differ
+   whenever 0 < j - i < 2^128 (the counter is a full 128-bit big-endian integer: no byte is skipped or frozen) *)
+Lemma mod_shift_neq r d M : r < M -> 0 < d -> d < M -> (r + d) mod M <> r.
+Proof.
+  intros Hr Hd HdM E. destruct (N.lt_ge_cases (r + d) M) as [Hs|Hs].
+  - rewrite N.mod_small in E by exact Hs. lia.
+  - assert (U : (r + d) mod M = r + d - M).
+    { symmetry. apply (N.mod_unique (r + d) M 1 (r + d - M)); lia. }
+    rewrite U in E. lia.
+Qed.
+
+Lemma nonce_add_distinct n i j : length n = 16%nat -> bytes_ok n -> (i < j)%nat ->
+  N.of_nat j - N.of_nat i < 2 ^ 128 -> nonce_add n i <> nonce_add n j.
+Proof.
+  intros Hn Hok Hij Hd E.
+  pose proof (nonce_add_val n i Hn Hok) as Vi. pose proof (nonce_add_val n j Hn Hok) as Vj.
+  rewrite E in Vi. rewrite Vi in Vj. clear Vi E.
+  set (a := be_decode n) in *. set (M := 2 ^ 128) in *.
+  assert (HM : M <> 0) by (subst M; discriminate).
+  replace (a + N.of_nat j) with ((a + N.of_nat i) + (N.of_nat j - N.of_nat i)) in Vj by lia.
+  pose proof (N.add_mod_idemp_l (a + N.of_nat i) (N.of_nat j - N.of_nat i) M HM) as Hm.
+  rewrite <- Hm in Vj. symmetry in Vj. revert Vj. apply mod_shift_neq; [apply N.mod_lt; exact HM|lia|exact Hd].
+Qed.
 Local Close Scope N_scope.
 
 (* ---- the modes ------------------------------------------------------------------- *)
